@@ -17,6 +17,8 @@ EXPLANATION = (
     "edge. (V5) the router returned by nest_crpc_api is wrapped in AuthMiddlewareLayer before it is merged. (V6) the "
     "registration lifetime is exp_time(claims).duration_since(now) and nothing else, its Err returning an error."
 )
+EXPLANATION_ADD = " Additions: (FLOW-lifetime spine) only value-preserving steps between duration_since and the register argument; (REQ-claims) the derived deserializers require every non-optional claims field; (PAIR-jwks) a JWKS refresh overwrites an entry's jwk only together with its decoding_key."
+EXPLANATION = EXPLANATION + EXPLANATION_ADD
 RESIDUAL = ["jsonwebtoken / ed25519 internals (trusted base)", "base64 variants accepted by the JWT library",
             "that jsonwebtoken's validate_nbf defaults to false is read from the vendored crate source (10.4.0), not from MIR"]
 ASSUMPTIONS = ["jsonwebtoken::decode enforces exactly what the Validation object describes",
